@@ -9,18 +9,29 @@ from lib import xtract as X
 from lib.core import Undecided
 from units.k01_spvecgf2 import _replay
 
+# locals of the merge loops, recognised by declaration shape (N2)
+def _canon(body, first, log):
+    return X.canon(body, [
+        (first, ["res"]),
+        (r"auto (\w+) = ones\.begin\(\), (\w+) = ones\.end\(\);", ["it", "it_e"]),
+        (r"auto (\w+) = v(?:\.ones)?\.begin\(\), (\w+) = v(?:\.ones)?\.end\(\);", ["v_it", "v_it_e"]),
+        (r"(?:const )?U (\w+) = \*it;", ["index"]),
+        (r"(?:const )?U (\w+) = \*v_it;", ["v_index"]),
+    ], log)
+
 
 def _unit(bounded, cap=8):
     log = []
     rel = "include/parmcb/spvecgf2.hpp"
     text = X.src(rel)
     body = X.body_after(text, r"SpVecGF2<U> operator\+\(const SpVecGF2<U> &v\) const\s*", "SpVecGF2::operator+")
+    body = _canon(body, r"SpVecGF2<U> (\w+);", log)
     body = X.rewrite(body, [
         (r"SpVecGF2<U> res;", "", 1, "container-api", "result vector -> array R + length nr (0 on entry)"),
         (r"auto it = ones\.begin\(\), it_e = ones\.end\(\);", "size_t it = 0, it_e = na;", 1, "container-api", "vector iterators = indices"),
         (r"auto v_it = v\.ones\.begin\(\), v_it_e = v\.ones\.end\(\);", "size_t v_it = 0, v_it_e = nb;", 1, "container-api", ""),
-        (r"U index = \*it;", "U index = A[it];", 1, "container-api", ""),
-        (r"U v_index = \*v_it;", "U v_index = B[v_it];", 1, "container-api", ""),
+        (r"(?:const )?U index = \*it;", "U index = A[it];", 1, "container-api", ""),
+        (r"(?:const )?U v_index = \*v_it;", "U v_index = B[v_it];", 1, "container-api", ""),
         (r"res\.ones\.push_back\(\*it\);", "R[nr++] = A[it]; vp_inr = vp_inr || (A[it] == vp_k);", (0, 2), "ghost", "push_back + ghost membership of vp_k"),
         (r"res\.ones\.push_back\(\*v_it\);", "R[nr++] = B[v_it]; vp_inr = vp_inr || (B[v_it] == vp_k);", (0, 2), "ghost", ""),
         (r"res\.ones\.push_back\((\w+)\);", r"R[nr++] = \1; vp_inr = vp_inr || (\1 == vp_k);", (0, 4), "ghost", "push_back + ghost membership of vp_k"),
@@ -96,11 +107,12 @@ def _dot_unit(which, bounded, cap=8):
     else:
         body = X.body_after(text, r"int operator\*\(const std::set<U> &v\) const\s*", "SpVecGF2::operator*(set)")
         second = (r"auto v_it = v\.begin\(\), v_it_e = v\.end\(\);", "size_t v_it = 0, v_it_e = nb;")
+    body = _canon(body, r"int (\w+) = 0;", log)
     body = X.rewrite(body, [
         (r"auto it = ones\.begin\(\), it_e = ones\.end\(\);", "size_t it = 0, it_e = na;", 1, "container-api", "iterators = indices"),
         (second[0], second[1], 1, "container-api", "second operand (vector or std::set in iteration order) = sorted array B"),
-        (r"U index = \*it;", "U index = A[it];", 1, "container-api", ""),
-        (r"U v_index = \*v_it;", "U v_index = B[v_it];", 1, "container-api", ""),
+        (r"(?:const )?U index = \*it;", "U index = A[it];", 1, "container-api", ""),
+        (r"(?:const )?U v_index = \*v_it;", "U v_index = B[v_it];", 1, "container-api", ""),
     ], log)
     inv = ("__CPROVER_assigns(it, v_it, res)\n"
            "__CPROVER_loop_invariant(it <= na && v_it <= nb && it_e == na && v_it_e == nb && (res == 0 || res == 1) && res == PA[it]"
